@@ -1791,6 +1791,9 @@ func genEvents(sc *Scenario, r *Rng, p Profile) {
 			if sc.Prop == "C10" && NewRng(mix(mix(sc.Seed, uint64(sc.Index)), uint64(z))).Bool(0.07) {
 				mm = 0 // an entry of 0 mm: nothing to add, the plan goes on
 			}
+			if (sc.Prop == "C10" || sc.Prop == "C01") && NewRng(mix(mix(sc.Seed, uint64(sc.Index)), uint64(z)+77)).Bool(0.05) {
+				mm = NewRng(mix(mix(sc.Seed, uint64(sc.Index)), uint64(z)+78)).Range(100, 250) // basin / flood irrigation: the day is cut into many sub-steps
+			}
 			sc.Irr = append(sc.Irr, IrrEvent{DateOfZeit(z), mm, pickI(r, []int{0, 0, 5, 20, 50})})
 		}
 	}
@@ -1886,6 +1889,21 @@ func genOutputConfigs(sc *Scenario, r *Rng, p Profile) {
 					cols[i].Width = rn.Range(1, 4)
 					cols[i].Align = aligns[rn.Intn(len(aligns))]
 				}
+			}
+		}
+		// 15 % of the configurations: one or two further columns whose index lies outside the array they name (a second index
+		// behind the inner array, a first index behind the outer one, an index on a scalar): the cell has no value, the record
+		// keeps its number of fields
+		if ro := NewRng(mix(mix(sc.Seed, uint64(sc.Index)), 5151)); ro.Bool(0.15) {
+			odd := []OutCol{
+				{Format: "%.4f", Var: "WG", I1: 1, I2: ro.Range(21, 40), Width: 9}, {Format: "%.4f", Var: "WG", I1: ro.Range(3, 9), I2: 1, Width: 9},
+				{Format: "%.3f", Var: "C1", I1: ro.Range(21, 60), Width: 10}, {Format: "%.2f", Var: "TD", I1: ro.Range(22, 30), Width: 8},
+				{Format: "%.3f", Var: "PRO", I1: 1, I2: ro.Range(10, 99), Width: 7}, {Format: "%.1f", Var: "BREG", I1: 5000, Width: 7},
+				{Format: "%.2f", Var: "LAI", I1: ro.Range(1, 3), Width: 7}, {Format: "%.4f", Var: "W", I1: 1, I2: 2, Width: 8},
+			}
+			for t, m := 0, ro.Range(1, 2); t < m; t++ {
+				at := ro.Intn(len(cols) + 1)
+				cols = append(cols[:at], append([]OutCol{odd[ro.Intn(len(odd))]}, cols[at:]...)...)
 			}
 		}
 		sc.DailyCols = cols
